@@ -371,10 +371,7 @@ func checkC13(c caseC13) (Outcome, error) {
 		if unsure {
 			return sel, ents, nil
 		}
-		index := map[klog.Record]int{}
-		for i, r := range parsed {
-			index[r] = i
-		}
+		_ = parsed // the returned records are matched by position and content, not by Go identity
 		gi := 0
 		for ri := range c.Doc.Records {
 			if !sel[ri] {
@@ -383,14 +380,10 @@ func checkC13(c caseC13) (Outcome, error) {
 			if gi >= len(got) {
 				return nil, nil, fmt.Errorf("%s: record %d (%s) matches but is missing from the result (%d records returned)", what, ri, c.Doc.Records[ri].Date.Lit(), len(got))
 			}
-			oi, known := index[got[gi]]
-			if !known || oi != ri {
-				return nil, nil, fmt.Errorf("%s: result position %d holds record %d, expected record %d (%s)", what, gi, oi, ri, c.Doc.Records[ri].Date.Lit())
-			}
 			g := got[gi]
 			if g.Date().ToString() != c.Doc.Records[ri].Date.Lit() || g.ShouldTotal().InMinutes() != c.Doc.Records[ri].ShouldMins() ||
 				fmt.Sprintf("%q", g.Summary().Lines()) != fmt.Sprintf("%q", model.Strs(c.Doc.Records[ri].Summary)) {
-				return nil, nil, fmt.Errorf("%s: record %d was altered by the filter", what, ri)
+				return nil, nil, fmt.Errorf("%s: result position %d is %s %q, expected record %d (%s) unaltered", what, gi, g.Date().ToString(), g.Summary().Lines(), ri, c.Doc.Records[ri].Date.Lit())
 			}
 			ge := g.Entries()
 			if len(ge) != len(ents[ri]) {
@@ -475,6 +468,12 @@ func checkC13(c caseC13) (Outcome, error) {
 				sortRows(gotRows)
 				sortRows(wantRows)
 			}
+			for i := range gotRows { // which separator `klog json` prints is not C13's matter
+				gotRows[i].date = strings.ReplaceAll(gotRows[i].date, "/", "-")
+			}
+			for i := range wantRows {
+				wantRows[i].date = strings.ReplaceAll(wantRows[i].date, "/", "-")
+			}
 			if fmt.Sprint(gotRows) != fmt.Sprint(wantRows) {
 				return out, fmt.Errorf("klog json with the query lists (date, #entries) %v, the reference selection is %v\n%s", gotRows, wantRows, where())
 			}
@@ -552,15 +551,22 @@ func checkC13(c caseC13) (Outcome, error) {
 		if len(sorted) != len(got) {
 			return out, fmt.Errorf("--sort changes the number of records\n%s", where())
 		}
-		seen := map[klog.Record]int{}
+		key := func(r klog.Record) string {
+			k := fmt.Sprintf("%s|%d|%q", r.Date().ToString(), r.ShouldTotal().InMinutes(), r.Summary().Lines())
+			for _, e := range r.Entries() {
+				k += "|" + entryDump(&e)
+			}
+			return k
+		}
+		seen := map[string]int{}
 		for _, r := range got {
-			seen[r]++
+			seen[key(r)]++
 		}
 		for i, r := range sorted {
-			if seen[r] == 0 {
+			if seen[key(r)] == 0 {
 				return out, fmt.Errorf("--sort returns a record that was not in the input\n%s", where())
 			}
-			seen[r]--
+			seen[key(r)]--
 			if i > 0 {
 				a, b := docDay(sorted[i-1]), docDay(r)
 				if (c.Query.Sort == "asc" && a > b) || (c.Query.Sort == "desc" && a < b) {
